@@ -6,6 +6,7 @@
 //   S <description>      generator::add_forward_declaration(description); prints the content of the private
 //                        member `names`:   S <names sorted, separated by one blank>
 //   other lines          ignored (they are for the model driver)
+// Every answer line is flushed: after a crash the check knows which case it was.
 // Built with ASan/UBSan: the writer keeps iterators into the previous name while it walks the next one.
 
 #include <yorel/yomm2/core.hpp>
@@ -77,7 +78,7 @@ int main(int argc, char** argv) {
                 }
                 std::ostringstream os;
                 gen.write_forward_declarations(os);
-                std::cout << "W " << escape(os.str()) << "\n";
+                std::cout << "W " << escape(os.str()) << std::endl;
             }
         } else if (line[0] == 'S') {
             const std::string description = rest;
@@ -95,7 +96,7 @@ int main(int argc, char** argv) {
                 std::cout << sep << name;
                 sep = " ";
             }
-            std::cout << "\n";
+            std::cout << std::endl;
         }
     }
 
